@@ -516,6 +516,8 @@ impl MExec<'_> {
                             halt: false,
                             repeat: vm.repeat.clone(),
                             cache: vm.cache.clone(),
+                            // anything else a VM may come to carry starts out fresh in a child
+                            ..Default::default()
                         };
                         let g = self.run(&mut child).map_err(|e| {
                             if e.kind == "BUDGET" {
